@@ -1,3 +1,52 @@
-(* C17 — statements are added when the corresponding facts file lands *)
-From SV Require Import Bytes Client Transport Server.
-Theorem C17_placeholder : True. Proof. exact I. Qed.
+(* C17 — script names and bodies come back exactly as the server holds them.
+
+   Model: ms/Client.v ([listscripts]/[parse_listing], [getscript]) after the two decoding
+   repairs: read_response inserts every literal as a quoted string (quote_literals), so the
+   assembled listing is [listing_resp es] and the assembled script is [quote body ++ ...]
+   whichever encoding the server chose.  Proofs: ms/DecodeFacts.v (pure decoding), and
+   C05/C09 for the reading.  The assembling step itself (read_response with ql = true producing
+   exactly listing_resp / quote body) is exercised by the correspondence check, not proved. *)
+From Coq Require Import List NArith Bool.
+From SV Require Import Bytes Client DecodeFacts.
+Import ListNotations.
+
+(* names: any bytes but CR/LF — {5}, OK, "x" ACTIVE, quotes and backslashes come back verbatim *)
+Theorem C17_listscripts :
+  forall es1 n es2,
+    Forall (fun e => name_ok (fst e)) (es1 ++ (n, true) :: es2) ->
+    all_inactive es1 -> all_inactive es2 ->
+    parse_listing (splitlines (listing_resp (es1 ++ (n, true) :: es2))) None []
+    = (Some n, map fst es1 ++ map fst es2).
+Proof. exact DecodeFacts.listscripts_exact. Qed.
+Print Assumptions C17_listscripts.
+
+Theorem C17_listscripts_no_active :
+  forall es, Forall (fun e => name_ok (fst e)) es -> all_inactive es ->
+             parse_listing (splitlines (listing_resp es)) None [] = (None, map fst es).
+Proof. exact DecodeFacts.listscripts_exact_none. Qed.
+Print Assumptions C17_listscripts_no_active.
+
+(* bodies: ANY octets; the value returned is the lines of the body joined by LF *)
+Theorem C17_getscript_value :
+  forall body r,
+    match scan_quoted (quote body ++ r) with
+    | Some (b, _) => join [10] (splitlines (unescape_q b))
+    | None => []
+    end = join [10] (splitlines body).
+Proof. exact DecodeFacts.getscript_value. Qed.
+Print Assumptions C17_getscript_value.
+
+(* every line intact, line endings normalised, at most trailing blank lines differ *)
+Theorem C17_lines_preserved :
+  forall body,
+    drop_trailing_empty (splitlines (join [10] (splitlines body)))
+    = drop_trailing_empty (splitlines body).
+Proof. exact DecodeFacts.lines_preserved. Qed.
+Print Assumptions C17_lines_preserved.
+
+Theorem C17_quote_roundtrip : forall l r, scan_quoted (quote l ++ r) = Some (escape_q l, r).
+Proof. exact DecodeFacts.scan_quoted_quote. Qed.
+Theorem C17_unescape : forall l, unescape_q (escape_q l) = l.
+Proof. exact DecodeFacts.unescape_escape. Qed.
+Print Assumptions C17_quote_roundtrip.
+Print Assumptions C17_unescape.
